@@ -154,7 +154,7 @@ func (c *checker) checkStoredTree(p *Prof, sp *storedProf, where string) trie {
 	got := trie{}
 	var walk func(parent uint64, prefix string, depth int)
 	walk = func(parent uint64, prefix string, depth int) {
-		if depth > 64 {
+		if depth > 100000 {
 			return
 		}
 		for _, r := range children[parent] {
@@ -193,6 +193,10 @@ func (c *checker) checkStoredTree(p *Prof, sp *storedProf, where string) trie {
 		switch {
 		case p.hasMultiLine() && trieEqual(got, refTrie(p, true, false)):
 			c.count("inlined_frames_expanded")
+		case c.truncatedAt(p, got) > 0:
+			// a deliberate truncation of deep stacks is accepted when it follows the rule "the frames below the
+			// limit are cut off and their weight stays on the last kept node as self" (conservation was checked above)
+			c.count(fmt.Sprintf("deep_stacks_truncated_at_%d_frames", c.truncatedAt(p, got)))
 		case p.hasEmptyStack() && (trieEqual(got, refTrie(p, false, true)) || trieEqual(got, refTrie(p, true, true))):
 			// the tree is the call trie of the samples that have frames: this is exactly the deviation already
 			// reported above as empty_stack_sample_weight_not_in_tree (when the lost weight is non-zero)
@@ -377,3 +381,34 @@ func barsBrief(bs []bar) string {
 	}
 	return s
 }
+
+// truncatedAt returns the limit L (one of the numeric limits found in the anchored code) for which the stored tree is
+// exactly the call trie of the samples with every stack cut to its L root-most frames, or 0.
+func (c *checker) truncatedAt(p *Prof, got trie) int {
+	maxd := 0
+	for _, s := range p.Samples {
+		if len(s.Stack) > maxd {
+			maxd = len(s.Stack)
+		}
+	}
+	for _, l := range depthLimits {
+		if int(l) >= maxd {
+			continue
+		}
+		cut := &Prof{NTypes: p.NTypes}
+		for _, s := range p.Samples {
+			st := s.Stack
+			if len(st) > int(l) {
+				st = st[len(st)-int(l):] // leaf first: the root-most frames are at the end
+			}
+			cut.Samples = append(cut.Samples, Smp{Stack: st, Vals: s.Vals})
+		}
+		if trieEqual(got, refTrie(cut, false, false)) {
+			return int(l)
+		}
+	}
+	return 0
+}
+
+// depthLimits is filled from the limit scan at start-up.
+var depthLimits []int64
